@@ -6,8 +6,54 @@ from gosym.runner import Check, load_program
 from checks.tcheck import run_property
 import checks.oracles as O
 
+def convergence(chk, prog):
+    """bounded rounds: from an arbitrary state in which everything has been dead for longer than the age threshold,
+    repeated rounds of the six jobs (worst-case order: parents first) reclaim every row"""
+    import z3
+    from gosym.core import And, Or, Not, PathAbort
+    from gosym import reldb, world, stdlib
+    from gosym.world import run_action, A
+    import checks.transitions as tr
+    sizes = {'Topic': 1, 'Subscription': 1, 'Message': 1, 'Delivery': 2}
+    JOBS = [('NewPruneDeletedTopics', 'PruneDeletedTopics'), ('NewPruneDeletedSubscriptions', 'PruneDeletedSubscriptions'),
+            ('NewPruneCompletedMessages', 'PruneCompletedMessages'), ('NewPruneDeletedSubscriptionDeliveries', 'PruneDeletedSubscriptionDeliveries'),
+            ('NewPruneExpiredDeliveries', 'PruneExpiredDeliveries'), ('NewPruneCompletedDeliveries', 'PruneCompletedDeliveries')]
+
+    def harness(ex, ob):
+        db = reldb.sym_db(ex, prog, sizes, exists=None)
+        age = z3.Int('min_age')
+        ex.assume(z3.And(age >= 0, age <= 10**15))
+        t0 = stdlib.time_now(ex, [], '')
+        old = t0 - age - 60 * 10**9
+        for t in db.t['Topic']:
+            ex.assume(z3.Implies(t.exists, And(Not(t.isnull('deleted_at')), t.v['deleted_at'] <= old)))
+        for s in db.t['Subscription']:
+            ex.assume(z3.Implies(s.exists, And(Not(s.isnull('deleted_at')), s.v['deleted_at'] <= old)))
+        for m in db.t['Message']:
+            ex.assume(z3.Implies(m.exists, m.v['published_at'] <= old))
+        for d in db.t['Delivery']:
+            ex.assume(z3.Implies(d.exists, Or(And(Not(d.isnull('completed_at')), d.v['completed_at'] <= old), d.v['expires_at'] < old)))
+        order = JOBS if ex.choose(2) == 0 else list(reversed(JOBS))
+        errors = 0
+        for rnd in range(4):
+            for ctor, typ in order:
+                p = tr.params(ex, 'PruneCommonParams', MinAge=age, MaxDelete=100)
+                snap = db.snapshot()
+                act, tx, err = run_action(ex, db, A + ctor, [p], '(*' + A + typ + ').Execute')
+                if err is not None:
+                    # a job that hits a foreign key fails as a whole and changes nothing (its transaction is rolled back)
+                    db.restore(snap)
+                    errors += 1
+        left = Or(*[r.exists for e in reldb.ENTITIES for r in db.t[e]])
+        ob.verify(ex, 'four-rounds-reclaim-everything-dead', Not(left),
+                  lambda m: {'order': [t for _, t in order], 'job_errors': errors})
+    chk.run('convergence:rounds-reclaim-all', prog, harness, bounds=dict(sizes, rounds=4, orders='children-first and parents-first'), setup=world.setup, max_paths=300000)
+    chk.assumptions.append('convergence is decided for 4 rounds in two fixed job orders (children first / parents first) on tables of 1 topic, 1 subscription, 1 message, 2 deliveries; snapshots are outside (nothing prunes them; DeleteTopic removes a topic\'s snapshots)')
+
+
 if __name__ == '__main__':
     chk = Check('C15')
     prog = load_program()
     run_property(chk, prog, lambda T: [O.c15_prune, O.c01_frame] if T.kind in ('prune', 'expire-subs') else [])
+    convergence(chk, prog)
     chk.finish()
